@@ -3,7 +3,8 @@ CONSTANTS N = 7
           C = 2
           Props = {1, 2, 3}
           Endrs = {3, 4, 5, 6, 7}
-          MaxMsgs = 6
+          VerifyCarried = FALSE
+          MaxMsgs = 5
           Alpha <- A7Mix
           EmitOn = TRUE
 VIEW ViewPool
